@@ -418,7 +418,7 @@ mod verif_hashtbl {
     }
     #[kani::proof]
     #[kani::should_panic]
-    fn next_capacity_u32_rejects() {
+    fn next_capacity_rejects_u32() {
         let req: usize = kani::any();
         kani::assume(req > (1usize << 31) / 4 * 3 && req <= usize::MAX / 4);
         let _ = RawTable::<u8, u32>::next_capacity(req);
